@@ -120,6 +120,21 @@ func c12BodyS(r *core.Rec, seed int64, d, p, length, g int, odd bool, sparse int
 		data = c12Displace(data)
 	}
 	coder := c12Code(d, p, g)
+	// every other length: the coder has a history of three refused calls (nothing to reconstruct from) before it is
+	// used - what such calls leave behind in the coder must not depend on, or interfere with, the goroutine count
+	if (length/2)%2 == 1 {
+		for k := 0; k < 3; k++ {
+			var ferr error
+			if pi := core.Catch(func() { ferr = coder.ReconstructData(make([][]byte, d), make([][]byte, p)) }); pi != nil {
+				r.Violatef("reconstruct-panic:"+pi.Frame, "d=%d p=%d g=%d, call with nothing present: %s", d, p, g, pi.Value)
+				return false
+			}
+			if ferr == nil {
+				r.Violatef("reconstruct-nil-with-nothing-present", "d=%d p=%d g=%d", d, p, g)
+				return false
+			}
+		}
+	}
 	var par [][]byte
 	// the data list is handed in as a window into a longer list (the "next stripe" and its parity slots behind it): the
 	// callee may not touch what lies behind the window, whatever the goroutine count
